@@ -105,7 +105,13 @@ func (a *RecAggregator) Run(ctx context.Context, deps core.AggregatorDeps) error
 
 func (a *RecAggregator) Report(s core.Sample) {
 	if ns, ok := s.(*netsample.Sample); ok {
-		a.Rec.Emit(E{"ev": "Sample", "gid": Goid(), "tag": ns.Tags(), "code": ns.ProtoCode()})
+		// what the gun hands over, read on the gun's goroutine at the moment of the hand-over
+		tag := ns.Tags()
+		base := tag
+		if i := strings.IndexByte(tag, '|'); i >= 0 {
+			base = tag[:i] // marks added later (e.g. __EMPTY__) follow the step's own tag
+		}
+		a.Rec.Emit(E{"ev": "Sample", "gid": Goid(), "tag": tag, "base": base, "code": ns.ProtoCode(), "err": ns.Err() != nil})
 	} else {
 		a.Rec.Emit(E{"ev": "Sample", "gid": Goid(), "tag": "?", "code": -1})
 	}
